@@ -10,6 +10,7 @@
 package c01
 
 import (
+	"encoding/hex"
 	"errors"
 	"flag"
 	"fmt"
@@ -20,6 +21,9 @@ import (
 	"testing"
 	"testing/synctest"
 	"time"
+
+	"gitlab.com/yawning/obfs4.git/common/drbg"
+	"gitlab.com/yawning/obfs4.git/common/probdist"
 
 	"verif/memwire"
 	"verif/mon"
@@ -47,6 +51,23 @@ var policies = []policySpec{
 	{"prng64", func(s uint64) memwire.ChunkPolicy { return memwire.PRNG(s, 64) }, 0},
 	{"prng3000", func(s uint64) memwire.ChunkPolicy { return memwire.PRNG(s, 3000) }, 0},
 	{"win4096", func(uint64) memwire.ChunkPolicy { return memwire.All() }, 4096},
+	{"allbutlast", func(uint64) memwire.ChunkPolicy { return memwire.AllButLast() }, 0},
+}
+
+// searched DRBG seeds whose burst-length table is single-valued (re-verified
+// at run time with the VerifTables hook; a seed whose shape no longer holds is
+// skipped and counted).  With the table {v} an application write whose frames
+// end on v modulo 1448 gets no padding at all, so the burst ends exactly at
+// the end of its last data frame: {22} makes a 1-byte write a bare 22-byte
+// frame, the smallest thing that can be in flight.
+var shapedSeeds = map[string]struct {
+	seed  string
+	value int
+	sizes []int // application write sizes whose burst carries no padding
+}{
+	"single-22":   {"6f626673342d633031632d736565642d000000000001e32e", 22, []int{1, 1428, 2855}},
+	"single-210":  {"654068c41ae6dc325786a4ba2a8de6c6ee10aa7889913ee1", 210, []int{189, 1616}},
+	"single-1365": {"20ba34488cab1a4b088098605e972d43348c1dc9a15078f5", 1365, []int{1344, 2771}},
 }
 
 var sizeMenu = []int{0, 1, 2, 1426, 1427, 1428, 2853, 2854, 2855, 4096, 8192, 23168, 65536}
@@ -78,10 +99,15 @@ type params struct {
 	polC2S   int // policy index for the client->server direction (what the server reads)
 	polS2C   int
 	seed     uint64
+	shape    string // key of shapedSeeds, or ""
 }
 
 func (p params) String() string {
-	return fmt.Sprintf("iat=%d biased=%v scenario=%s c2s=%s s2c=%s seed=%x", p.iat, p.biased, scenarioNames[p.scenario], policies[p.polC2S].name, policies[p.polS2C].name, p.seed)
+	sh := ""
+	if p.shape != "" {
+		sh = " table=" + p.shape
+	}
+	return fmt.Sprintf("iat=%d biased=%v scenario=%s c2s=%s s2c=%s seed=%x%s", p.iat, p.biased, scenarioNames[p.scenario], policies[p.polC2S].name, policies[p.polS2C].name, p.seed, sh)
 }
 
 func script(rng interface {
@@ -111,6 +137,18 @@ func runConn(c *mon.Case, r *mon.Run, dir string, p params) {
 		c.T.Fatal(err)
 	}
 	b := o4.NewBridge(rng, p.iat)
+	if p.shape != "" {
+		sh := shapedSeeds[p.shape]
+		raw, _ := hex.DecodeString(sh.seed)
+		copy(b.Seed[:], raw)
+		ds, _ := drbg.SeedFromBytes(b.Seed[:])
+		_, _, vals, _, _, _ := probdist.New(ds, 0, 1448, p.biased).VerifTables()
+		if len(vals) != 1 || vals[0] != sh.value {
+			r.Count("shaped_seed_skipped_"+p.shape, 1)
+			return
+		}
+		r.Count("shaped_seed_connections_"+p.shape, 1)
+	}
 	sf, err := o4.ServerFactory(dir, b)
 	if err != nil {
 		c.Violation("setup/server-factory", err.Error(), p.String())
@@ -136,6 +174,20 @@ func runConn(c *mon.Case, r *mon.Run, dir string, p params) {
 		}
 	}
 	cScript, sScript := script(rng, nW, maxTotal), script(rng, nW, maxTotal)
+	if p.shape != "" {
+		// mostly writes whose burst gets no padding under this table
+		sh := shapedSeeds[p.shape]
+		for _, sc := range [][]int{cScript, sScript} {
+			for i := range sc {
+				if rng.IntN(4) != 0 {
+					sc[i] = sh.sizes[rng.IntN(len(sh.sizes))]
+					if rng.IntN(2) == 0 {
+						sc[i] = sh.sizes[0]
+					}
+				}
+			}
+		}
+	}
 	gaps := func() []time.Duration {
 		g := make([]time.Duration, nW)
 		for i := range g {
@@ -450,7 +502,7 @@ func interleaving(wu []memwire.WEvent, ru []memwire.REvent, wd []memwire.WEvent,
 func TestCheck(t *testing.T) {
 	r := mon.Start(t, "C01")
 	defer r.Finish()
-	r.Note("rule", "grid of (IAT mode 0/1/2) x (biased/uniform tables) x (4 scenarios incl. server payload coalesced with the handshake response) x reader chunk policies on both wire directions (all-available, 1, 2, 7, 21, 45, 1447, 1448, 1449, PRNG<=64, PRNG<=3000, 4 KiB back-pressure window); per connection a fresh bridge identity/DRBG seed and PRNG write-size scripts from {0,1,2,1426..1428,2853..2855,4096,8192,23168,65536,PRNG} with virtual pauses; every connection has 4 concurrent goroutines under the race detector. A case is non-trivial when the handshake completed and payload flowed; distinct = distinct (mode,bias,scenario,policies,seed).")
+	r.Note("rule", "grid of (IAT mode 0/1/2) x (biased/uniform tables) x (4 scenarios incl. server payload coalesced with the handshake response) x reader chunk policies on both wire directions (all-available, 1, 2, 7, 21, 45, 1447, 1448, 1449, PRNG<=64, PRNG<=3000, 4 KiB back-pressure window, all-but-the-last-byte of whatever is available); plus searched single-valued tables ({22}, {210}, {1365}) with write sizes whose burst gets no padding, so that the last data frame is the last thing in flight; per connection a fresh bridge identity/DRBG seed and PRNG write-size scripts from {0,1,2,1426..1428,2853..2855,4096,8192,23168,65536,PRNG} with virtual pauses; every connection has 4 concurrent goroutines under the race detector. A case is non-trivial when the handshake completed and payload flowed; distinct = distinct (mode,bias,scenario,policies,seed).")
 	dir := o4.StateDir("c01")
 	nPer := r.Pick(3, 30) // connections per grid cell
 	idx := 0
@@ -485,6 +537,36 @@ func TestCheck(t *testing.T) {
 					})
 					idx++
 				}
+			}
+		}
+	}
+
+	// bursts that end exactly at the end of their last data frame (no padding
+	// behind it): single-valued tables, write sizes chosen to match, every
+	// chunk policy incl. "all but the last byte" and byte-at-a-time
+	nS := r.Pick(2, 12)
+	for _, shape := range []string{"single-22", "single-210", "single-1365"} {
+		for iat := 0; iat < 3; iat++ {
+			for pi := range policies {
+				shape, iat, pi := shape, iat, pi
+				r.Case(fmt.Sprintf("unpadded-tail/%s/iat%d/%s", shape, iat, policies[pi].name), func(c *mon.Case) {
+					for k := 0; k < nS; k++ {
+						scen := []int{scLockstep, scClientFirst, scServerFirstCoalesced, scBothAtOnce}[k%4]
+						p := params{iat: iat, biased: false, scenario: scen, polC2S: pi, polS2C: pi, seed: r.Sub("unpadded", shape, iat, pi, k), shape: shape}
+						func() {
+							defer func() {
+								if e := recover(); e != nil {
+									sig := "panic-in-case"
+									if strings.HasPrefix(fmt.Sprint(e), "deadlock:") {
+										sig = "wedge/goroutines-still-blocked-after-close"
+									}
+									c.Violation(sig, fmt.Sprintf("%v; %s", e, p), p.String())
+								}
+							}()
+							synctest.Test(c.T, func(t *testing.T) { runConn(c, r, dir, p) })
+						}()
+					}
+				})
 			}
 		}
 	}
